@@ -543,6 +543,8 @@ func TestVerifC14(t *testing.T) {
 	legacyEquivalence(res, root)
 	liveSessionAnswers(res, root)
 	concurrentLoad(res, root)
+	failedReadsThenValid(res, root)
+	res.RequireObs("valid_requests_after_failed_reads", 100)
 	for _, m := range []string{"GET", "POST", "OPTIONS", "HEAD", "FOO"} {
 		found := false
 		for c := range classes {
@@ -572,6 +574,119 @@ func TestVerifC14(t *testing.T) {
 	res.RequireObs("live_session_sequences", 5)
 	res.RequireObs("concurrent_load_state_reads", 200)
 	res.RequireObs("concurrent_load_matches", 50)
+}
+
+// rawSend writes bytes on a fresh connection, optionally half-closes, and
+// reads whatever comes back for a short while (the reply is not judged).
+func rawSend(addr string, data []byte, halfClose bool) {
+	c, err := net.DialTimeout("tcp", addr, 5*time.Second)
+	if err != nil {
+		return
+	}
+	defer c.Close()
+	c.SetDeadline(time.Now().Add(10 * time.Second))
+	c.Write(data)
+	if halfClose {
+		if tc, ok := c.(*net.TCPConn); ok {
+			tc.CloseWrite()
+		}
+	}
+	io.Copy(ioutil.Discard, c)
+}
+
+// failedReadsThenValid: requests whose body cannot be read to its end (over
+// the limit with either framing, shorter than announced, cut inside a chunk)
+// are followed by well-formed requests whose reply does not depend on any
+// state: a poll with a pattern the broker refuses, an answer for an unknown
+// session, a client when no proxy waits. Each of these must get the very
+// reply the same request got from the fresh broker.
+func failedReadsThenValid(res *vlib.Result, root *vlib.Rand) {
+	b, err := startBroker("failed-reads")
+	if err != nil {
+		res.Inconcl("cannot start broker for the failed-read sequences: " + err.Error())
+		return
+	}
+	defer b.stop()
+	type probe struct {
+		name string
+		rq   *rawReq
+		ref  rawResp
+	}
+	pollBody, _ := json.Marshal(map[string]interface{}{"Sid": "fr-poll", "Version": "1.3", "Type": "standalone", "NAT": "unknown", "Clients": 0, "AcceptedRelayPattern": "example.com$"})
+	probes := []*probe{
+		{name: "refused-poll", rq: &rawReq{Method: "POST", Target: "/proxy", body: pollBody}},
+		{name: "stray-answer", rq: &rawReq{Method: "POST", Target: "/answer", body: validAnswer("fr-nobody")}},
+		{name: "client-without-proxies", rq: &rawReq{Method: "POST", Target: "/client", body: []byte("1.0\n" + `{"offer":"{\"type\":\"offer\",\"sdp\":\"FR\"}","nat":"restricted"}`)}},
+		{name: "legacy-client-without-proxies", rq: &rawReq{Method: "POST", Target: "/client", body: []byte(`{"type":"offer","sdp":"FR-legacy"}`)}},
+	}
+	for _, p := range probes {
+		rs, err := exchange(b.addr, []*rawReq{p.rq}, 40*time.Second)
+		if err != nil || len(rs) != 1 || rs[0].Err != "" {
+			res.Inconcl(fmt.Sprintf("failed-reads: no reference reply for %s: %v %+v", p.name, err, rs))
+			return
+		}
+		p.ref = rs[0]
+	}
+	forms := []string{"chunked-100001", "chunked-1MiB", "content-length-100001", "shorter-than-announced", "shorter-than-announced-half-close", "cut-inside-chunk", "chunked-100000-control"}
+	rounds := vlib.Scale(14, 140)
+	for i := 0; i < rounds; i++ {
+		form := forms[i%len(forms)]
+		ep := []string{"/proxy", "/client", "/answer"}[(i/len(forms))%3]
+		var wg sync.WaitGroup
+		for k := 0; k < 8; k++ {
+			wg.Add(1)
+			go func(k int) {
+				defer wg.Done()
+				fill := bytes.Repeat([]byte{byte('A' + k)}, 1<<20)
+				switch form {
+				case "chunked-100001":
+					exchange(b.addr, []*rawReq{{Method: "POST", Target: ep, body: fill[:100001], Chunked: true}}, 20*time.Second)
+				case "chunked-100000-control":
+					exchange(b.addr, []*rawReq{{Method: "POST", Target: ep, body: fill[:100000], Chunked: true}}, 20*time.Second)
+				case "chunked-1MiB":
+					exchange(b.addr, []*rawReq{{Method: "POST", Target: ep, body: fill, Chunked: true}}, 20*time.Second)
+				case "content-length-100001":
+					exchange(b.addr, []*rawReq{{Method: "POST", Target: ep, body: fill[:100001]}}, 20*time.Second)
+				case "shorter-than-announced", "shorter-than-announced-half-close":
+					n := 100 + 977*k
+					hdr := fmt.Sprintf("POST %s HTTP/1.1\r\nHost: broker.test\r\nContent-Length: %d\r\n\r\n", ep, 2*n)
+					rawSend(b.addr, append([]byte(hdr), fill[:n]...), form != "shorter-than-announced")
+				case "cut-inside-chunk":
+					hdr := fmt.Sprintf("POST %s HTTP/1.1\r\nHost: broker.test\r\nTransfer-Encoding: chunked\r\n\r\n1000\r\n", ep)
+					rawSend(b.addr, append([]byte(hdr), fill[:100+300*k]...), true)
+				}
+			}(k)
+		}
+		wg.Wait()
+		res.Obs("failed_read_rounds:"+form, 1)
+		// the well-formed requests, many at once (they are served by different handler goroutines)
+		var vwg sync.WaitGroup
+		for k := 0; k < 24; k++ {
+			vwg.Add(1)
+			go func(k int) {
+				defer vwg.Done()
+				p := probes[k%len(probes)]
+				rs, err := exchange(b.addr, []*rawReq{p.rq}, 40*time.Second)
+				res.Eval(1)
+				res.Obs("valid_requests_after_failed_reads", 1)
+				rec := map[string]interface{}{"case": fmt.Sprintf("failed-reads/%d/%d", i, k), "preceding_requests": form + " on " + ep, "probe": p.name, "reference_reply": p.ref}
+				if err != nil || len(rs) != 1 || rs[0].Err != "" {
+					res.Violatef("c14:later-requests-mishandled:no-reply-after-failed-body-read", rec, "%s after 8 %s requests: %v %+v", p.name, form, err, rs)
+					return
+				}
+				rec["reply"] = rs[0]
+				if rs[0].Status != p.ref.Status || !bytes.Equal(rs[0].body, p.ref.body) {
+					res.Violatef("c14:later-requests-mishandled:after-failed-body-read", rec, "%s got %d %q after 8 %s requests to %s; the fresh broker answered the same request %d %q", p.name, rs[0].Status, rs[0].BodyPrefix, form, ep, p.ref.Status, p.ref.BodyPrefix)
+				}
+			}(k)
+		}
+		vwg.Wait()
+		res.Distinct("failed-reads/" + form + ep)
+		if !b.alive() {
+			res.Violate("c14:broker-process-died", "the broker process exited during the failed-read sequences", map[string]interface{}{"case": fmt.Sprintf("failed-reads/%d", i), "stderr_panics": b.panicLines()})
+			return
+		}
+	}
 }
 
 // liveSessionAnswers: request sequences that refer to a session that is alive at
